@@ -214,6 +214,10 @@ pub(crate) fn before_accept_join() {
     if let Some(obs) = observer() {
         obs.accept_join(accept_exited());
     }
+    if !accept_exited() && !accept_present() {
+        // the accept loop was lost to a panic in an earlier step: joining its thread reports that
+        panic!("Accept thread must not panic in any case (the accept loop panicked earlier)");
+    }
 }
 
 pub(crate) fn availability_words(avail: &Availability) -> [u128; 4] {
